@@ -25,6 +25,8 @@ enum Op {
     Create(u8),
     Clone(u8),
     Drop(u8),
+    /// `AsyncDrop::async_drop` (the removal is awaited instead of being queued)
+    AsyncDrop(u8),
     /// 0 = S1 (matches R1 and R2), 1 = S2 (matches R2), 2 = X on c.d (matches neither)
     Msg(u8),
     Poll(u8),
@@ -112,7 +114,7 @@ impl Model {
                     is_clone: true,
                 });
             }
-            Op::Drop(i) => {
+            Op::Drop(i) | Op::AsyncDrop(i) => {
                 let s = &self.streams[i as usize];
                 let kind = s.kind;
                 let shared = self
@@ -153,6 +155,7 @@ impl Model {
         for (i, s) in self.streams.iter().enumerate() {
             if s.alive {
                 v.push(Op::Drop(i as u8));
+                v.push(Op::AsyncDrop(i as u8));
             }
         }
         if self.msgs.len() < max_msgs {
@@ -266,6 +269,14 @@ fn run_history(hist: &[Op], cap: usize) -> (RunOut, Model) {
                 Op::Drop(i) => {
                     streams[i as usize] = None;
                     w.settle();
+                }
+                Op::AsyncDrop(i) => {
+                    if let Some(s) = streams[i as usize].take() {
+                        use zbus::AsyncDrop;
+                        if w.complete("async-drop", async move { s.async_drop().await }).is_none() {
+                            errors.push("async_drop did not complete".into());
+                        }
+                    }
                 }
                 Op::Msg(k) => {
                     let id = (m.msgs.len() - 1) as u32;
@@ -611,7 +622,7 @@ pub fn main(args: &Args) -> i32 {
         *transitions.lock().unwrap() += h.len() as u64;
         let st = hash64(&(format!("{:?}", model.streams.iter().map(|s| (s.kind, s.alive, &s.required)).collect::<Vec<_>>()), &out.yielded));
         states.lock().unwrap().insert(st);
-        if h.iter().any(|o| matches!(o, Op::Clone(_) | Op::Drop(_))) {
+        if h.iter().any(|o| matches!(o, Op::Clone(_) | Op::Drop(_) | Op::AsyncDrop(_))) {
             report.nontrivial(hash64(&(h, cap)));
         }
     });
@@ -650,7 +661,7 @@ pub fn main(args: &Args) -> i32 {
         t.transitions += bfs_transitions;
         t.distinct_logs += bfs_states;
         t.scenarios.push(json!({"part": "A: full history tree", "depth": depth, "histories": hs.len(), "queue_capacities": caps,
-            "alphabet": "create(R1|R2|unfiltered), clone(i), drop(i), inbound(S1|S2|X), poll(i); ≤3 streams, ≤3 messages; only histories with ≥1 message",
+            "alphabet": "create(R1|R2|unfiltered), clone(i), drop(i), async_drop(i), inbound(S1|S2|X), poll(i); ≤3 streams, ≤3 messages; only histories with ≥1 message",
             "executions": bfs_execs, "distinct_model_state_and_observation": bfs_states}));
     }
     report.assume("p2p connection (no AddMatch traffic; bus-side registrations are C37)");
@@ -668,6 +679,8 @@ fn parse_op(s: &str) -> Op {
         Op::Create(n)
     } else if s.starts_with("Clone") {
         Op::Clone(n)
+    } else if s.starts_with("AsyncDrop") {
+        Op::AsyncDrop(n)
     } else if s.starts_with("Drop") {
         Op::Drop(n)
     } else if s.starts_with("Msg") {
